@@ -593,3 +593,10 @@ Definition pg_process (mem : pg_memory) (body : list (pg_hid * pg_srec)) (owned 
   (r, mkPgMem (m_listed mem) (m_fho mem || r_fho r)).
 
 Definition pg_pure (orc : pg_oracle) : Prop := forall k n, e_stores (snd (orc k n)) = [].
+
+(* the writes of an oracle never go to the top-level ids (sub-handler ids carry their parent's id as a prefix) *)
+Definition pg_stores_apart (orc : pg_oracle) (tops : list pg_hid) : Prop :=
+  forall k n s, In s (map fst (e_stores (snd (orc k n)))) -> ~ In s tops.
+
+Definition pg_fam_apart (fam : pg_family) (tops : list pg_hid) : Prop :=
+  forall k res so ss, fam k = Some (res, so, ss) -> forall s, In s so \/ In s ss -> ~ In s tops.
